@@ -143,6 +143,16 @@ pub fn run(ctx: &mut Ctx, _replay: Option<&[String]>) {
                 };
                 if f32mode { sent = sent.iter().map(|&x| (x as f32) as f64).collect(); }
                 let limit = *rng.pick(&[0u32, 1, 2, 5, 20]);
+                // the Rust decoder first, on the depunctured LLRs (f32 input behaving as its f64 widening).  If IT panics (the float A-Min*
+                // decoders do when f32 messages overflow to NaN, DESIGN.md section 4 (9)) there is nothing to compare with, and the same
+                // panic inside the extern "C" function would abort this process: the call sequence ends here.
+                let dep = match &punct { Some(p) => p.depuncture(&sent).unwrap(), None => sent.clone() };
+                let rr = {
+                    let d = std::panic::AssertUnwindSafe(&mut rust);
+                    let dep2 = dep.clone();
+                    crate::guarded(move || { let d = d; d.0.decode(&dep2, limit as usize) })
+                };
+                let Ok(rr) = rr else { ctx.tag("rust-decoder-panicked-c-call-skipped"); break; };
                 let mut out = vec![7u8; out_len];
                 let ret = unsafe {
                     if f32mode {
@@ -153,9 +163,7 @@ pub fn run(ctx: &mut Ctx, _replay: Option<&[String]>) {
                     }
                 };
                 cres.push(format!("{}:{}", ret, bools(out.iter().map(|&b| b == 1))));
-                // the Rust decoder on the depunctured LLRs (f32 input behaving as its f64 widening)
-                let dep = match &punct { Some(p) => p.depuncture(&sent).unwrap(), None => sent.clone() };
-                let (rret, word) = match rust.decode(&dep, limit as usize) {
+                let (rret, word) = match rr {
                     Ok(o) => (o.iterations as i64, o.codeword), Err(o) => (-1, o.codeword) };
                 rres.push(format!("{}:{}", rret, bools(word.iter().take(out_len).map(|&b| b == 1))));
                 calls_s.push(fmt_call(limit as usize, &sent));
